@@ -462,10 +462,12 @@ func Decode(sig []scen.Signal) (string, string) {
 		case "error":
 			errs++
 		case "log":
+			// "one `added` log, one `updated` log": the word decides, not the exact wording
+			lt := strings.ToLower(t)
 			switch {
-			case strings.Contains(t, "Snapshot added"):
+			case strings.Contains(lt, "added") && !strings.Contains(lt, "updated"):
 				adds++
-			case strings.Contains(t, "Snapshot updated"):
+			case strings.Contains(lt, "updated") && !strings.Contains(lt, "added"):
 				upds++
 			default:
 				other++
